@@ -2,8 +2,9 @@
 
 Lean side (Props/C20.lean): for ALL pairs of grids the repaired `__eq__` is sound (`eq_sound`: equal ⇒ same
 format, identical node_lon / node_lat / face_node_connectivity), hence `single_change_detected`, reflexive,
-symmetric, `!=` its negation, a copy equal, a non-Grid unequal; complete when both grids keep their node
-coordinates the same way (`eq_complete_partial`).  Tie (differential, labelled as such): every generated pair is
+symmetric, `!=` its negation, a copy equal, a non-Grid unequal; and complete (`eq_complete`: same ⇒ equal — the
+model compares the VARIABLES, fixes/C20-eq-compares-variables.patch; the DataArray.equals version `gridEqCoords`
+is kept with its proved counterexample).  Tie (differential, labelled as such): every generated pair is
 built through the public constructors, `a == b`, `a != b`, `b == a`, `b != a` are observed on the real code, and
 the Lean driver evaluates the decidable `Spec` on (observed arrays, observed outputs) and runs the model on
 the same arrays.  The bit-level model of IEEE `==` / NaN-aware equality is compared with NumPy and with
@@ -269,7 +270,7 @@ def judge_objs(ctx, kind, a, oa, da, b, ob, db, extra=None):
     ds, v1, v2, v3, m, bm, bk = ans.split(";")
     diff, cs = ds.split()
     meq, mne, masis = [x == "1" for x in m.split()]
-    beq_ab, beq_ba, faith_ab, faith_ba = [x == "1" for x in bm.split()]
+    beq_ab, beq_ba, faith_ab, faith_ba, mcoords = [x == "1" for x in bm.split()]
     faithful = faith_ab and faith_ba
     ctx.hit("backing:" + bk)
     if not faithful:
@@ -288,12 +289,14 @@ def judge_objs(ctx, kind, a, oa, da, b, ob, db, extra=None):
         ctx.hit("coords-as-xarray-coordinates")
     if oa["coordVars"] is None or ob["coordVars"] is None:
         ctx.hit("other-coords-structure")
-    if masis != meq:
+    if masis != mcoords:
         ctx.hit("pair-on-which-`or`-and-`and`-differ")
+    if mcoords != meq:
+        ctx.hit("pair-on-which-DataArray.equals-and-Variable.equals-differ")
     if has_nan(oa) or has_nan(ob):
         ctx.hit("with-NaN")
     impl = dict(eq_ab=e1, ne_ab=n1, eq_ba=e2, ne_ba=n2, a=small(oa), b=small(ob))
-    model = dict(eq=meq, ne=mne, asis_eq=masis, differs=diff, backing=bk, eq_with_lazy_shortcut=[beq_ab, beq_ba],
+    model = dict(eq=meq, ne=mne, asis_eq=masis, dataarray_equals_version_eq=mcoords, differs=diff, backing=bk, eq_with_lazy_shortcut=[beq_ab, beq_ba],
                  dask_names_faithful=faithful)
     bsuf = "" if bk == "numpy+numpy" or cs == "coords-differ" else "/backing=" + bk
     failed = False
@@ -951,8 +954,8 @@ def run(ctx):
         "DataArray.equals = same dims, NaN-aware element equality, same coordinates: tied to the model by the differential run and "
         "by the element-level comparison with xarray on special values (not proved about xarray)",
         "IEEE == on bit patterns (equal bits or both zero, never NaN) is compared with Lean's Float and NumPy on special and random doubles",
-        "grids use the canonical dimension names; node coordinates are either plain data variables or both xarray coordinates "
-        "(other structures are judged by the Spec only and counted)",
+        "grids use the canonical dimension names (Variable.equals compares dims); how node_lon/node_lat are stored (data variables / "
+        "xarray coordinates) is observed and sent to the driver but is not an input of the repaired model (eq_ignores_coord_storage)",
         "Python falls back to Grid.__eq__ for `x == g` when x is a builtin (reflected comparison)",
         "the backing state (numpy / dask names and chunks) is NOT an input of the Spec or of the value-level model; theorem "
         "backing_irrelevant: with faithful dask names xarray's lazy shortcut cannot change the result — faithfulness of the observed "
